@@ -107,7 +107,7 @@ class C03(Prop):
         out = []
         for _ in range(n):
             t = X.gen_tree(rng, rng.choice([1, 2, 3]), root="dict")
-            mode = rng.choice(["convert", "convert", "wrap", "json"])
+            mode = rng.choice(["convert", "convert", "wrap", "json", "convert", "convert", "wrap", "json", "missing"])
             cur = copy.deepcopy(t)
             ops, metas = [], []
             for _ in range(rng.randint(1, 5)):
